@@ -155,6 +155,9 @@ C03Env == /\ Check("no_residual_reference", Ev.residual = 0)
                    Source # "suite" => \A k \in 1..Len(Ev.outrefs) :
                       LET o == Ev.outrefs[k] IN
                       (o.e.inst = "" /\ ~o.in_ir /\ (o.e.abs \/ o.e.up <= Len(o.ctx)) /\ MustBeRelative(nodes, o.ctx, Resolve(o.ctx, o.e))) => ~o.e.abs)
+          \* inside the predicate of a secondary-instance expression a relative path is anchored with current()
+          /\ Check("emitted_relative_paths_in_instance_predicates_are_anchored",
+                   Source # "suite" => \A k \in 1..Len(Ev.outrefs) : (Ev.outrefs[k].in_pred /\ ~Ev.outrefs[k].e.abs) => Ev.outrefs[k].e.cur)
           /\ Check("every_source_reference_substituted",
                    \A i \in 1..Len(nodes) : \A k \in 1..Len(nodes[i].refs) :
                       \E j \in 2..(l - 1) : T[j].ev = "ref" /\ T[j].name = nodes[i].refs[k])
